@@ -145,6 +145,9 @@ int32_t jls_rd_open(struct jls_rd_s ** instance, const char * path) {
             }
         }
 
+        // END is appended.  The pointer repair leaves the position behind the last chunk it read,
+        // and only an FSR rebuild moves it back to the end: seek explicitly (files without FSR signal).
+        GOE(jls_raw_seek_end(core->raw));
         GOE(jls_core_wr_end(core));
         GOE(jls_raw_close(core->raw));
         GOE(jls_raw_open(&core->raw, path, "r"));
